@@ -156,6 +156,40 @@ def run(chk, tier):
         if not viol:
             chk.traces += 1
         replayed += 1 if case.get("program_replayed") else 0
+    # ---------------------------------------------------------------- vacuity guard
+    # every component class of the specification matrices (statement: public inputs, config / FRI parameters incl.
+    # num_query_rounds, digest, ...; messages: caps, openings, ...) must have been perturbed, with the challenges
+    # recomputed, in at least one PLONK and one STARK case; every public-input position of every case with public
+    # inputs must have been perturbed; the first challenges after the statement must be among the compared ones.
+    for sysname, first_ch in (("plonk", ["plonk_betas", "plonk_gammas", "plonk_alphas", "plonk_zeta"]),
+                              ("stark", ["lookup_challenges", "stark_alphas", "stark_zeta"])):
+        mine = [c for c in cases if c["system"] == sysname]
+        classes = set()
+        for m in spec[sysname].values():
+            classes |= {cl.split(".")[0] + ".*" if cl.startswith("commit_cap.") else cl for cl in m["components"]}
+        done = set()
+        for c in mine:
+            for cl, v in c["matrix"]["components"].items():
+                if v["perturbed"] > 0:
+                    done.add("commit_cap.*" if cl.startswith("commit_cap.") else cl)
+        missing = sorted(classes - done)
+        if missing:
+            raise ToolError("vacuous: %s component classes never perturbed in any %s case: %s" % (len(missing), sysname, missing))
+        for ch in first_ch:
+            if not any(ch in c["matrix"]["challenges"] for c in mine):
+                raise ToolError("vacuous: challenge %s is not compared in any %s case" % (ch, sysname))
+        with_pi = [c for c in mine if c["cfg"]["npi"] > 0]
+        if not with_pi:
+            raise ToolError("vacuous: no %s case has public inputs" % sysname)
+        for c in with_pi:
+            pi = c["matrix"]["components"]["public_input"]
+            if pi["perturbed"] != c["cfg"]["npi"]:
+                raise ToolError("vacuous: %s: %d of %d public-input positions perturbed" % (c["config"], pi["perturbed"], c["cfg"]["npi"]))
+        if sysname == "stark" and not any(c["cfg"].get("npifree", 0) > 0 for c in mine):
+            raise ToolError("vacuous: no STARK case has a public input outside every constraint (the only kind whose "
+                            "binding rests on the observe step alone)")
+    chk.canary("vacuity guard: every specification component class perturbed in a PLONK and a STARK case, every public-input "
+               "position, incl. public inputs that occur in no constraint; first challenges after the statement compared", True)
     first = cases[0]
     comp = first["matrix"]["components"]["plonk_zs_partial_products_cap"]
     chk.sample({"observed": {"config": first["config"], "component": "plonk_zs_partial_products_cap", "atoms": comp["atoms"],
